@@ -264,3 +264,197 @@ class VcpuFieldAddress:
     def ensures_address_is_base_of_this_chip_plus_core_block_plus_offset(x, y, p, g_size, g_offset, g_base, result, _trace):
         return (result[1] == g_base + g_size * p + g_offset
                 and len(_trace) == 1 and _trace[0][3] == x and _trace[0][4] == y)
+
+
+# ---- MachineController.read / .write: handed to the connection of the target chip with the machine's own buffer and window -----
+from pyvc.values import TRec as _TRec7, ListV as _ListV7, TOpt as _TOpt7   # noqa: E402
+from pyvc.speclib import unopt   # noqa: E402
+
+CONN7 = _TRec7("Conn", __id__=TInt())
+
+
+def _get_conn7(E, obj, args, kwargs, st, node):
+    s = st.copy()
+    s.trace = _ListV7(s.trace.items + (("connection_for",) + tuple(args),))
+    return [(s, st.env["g_conn"], None)]
+
+
+def _conn_read7(E, obj, args, kwargs, st, node):
+    s = st.copy()
+    s.trace = _ListV7(s.trace.items + (("read", obj.fields["__id__"]) + tuple(args),))
+    return [(s, st.env["g_data"], None)]
+
+
+def _conn_write7(E, obj, args, kwargs, st, node):
+    from pyvc.values import NONE as _N
+    s = st.copy()
+    s.trace = _ListV7(s.trace.items + (("write", obj.fields["__id__"]) + tuple(args),))
+    return [(s, _N, None)]
+
+
+MC7 = _TRec7("MachineController", _scp_data_length=_TOpt7(TInt(1, None)), _window_size=_TOpt7(TInt(1, None)))
+
+
+@contract("rig/machine_control/machine_controller.py::MachineController.read")
+class MCRead:
+    """(buffer size already known: the property returns the cached value; window 1 until one is known)"""
+    properties = ("C07",)
+    params = dict(self=MC7, address=TInt(0, 2 ** 32 - 1), length_bytes=TInt(0, None), x=TInt(0, 255), y=TInt(0, 255), p=TInt(0, 17),
+                  g_conn=CONN7, g_data=TInt())
+    externals = {"MachineController._get_connection": _get_conn7, "Conn.read": _conn_read7}
+    options = {"decorators": {"use_contextual_arguments": "identity"}}
+    assumptions = ["ContextMixin.use_contextual_arguments treated as the identity (C18); _get_connection external (C18); the connection's read is SCPConnection.read, whose packet generator has its own contract"]
+
+    def native(x):
+        raise __import__("pyvc.replay", fromlist=["OutsideHarness"]).OutsideHarness()
+
+    def requires(self):
+        return self._scp_data_length is not None        # (else the property asks the machine first: C14)
+
+    def ensures_exactly_this_range_of_this_core_is_read_with_the_machines_buffer_and_window(self, address, length_bytes, x, y, p, g_conn, g_data, result, _trace):
+        return (result == g_data and len(_trace) == 2 and _trace[0] == ("connection_for", x, y)
+                and _trace[1] == ("read", g_conn.__id__, unopt(self._scp_data_length), (1 if self._window_size is None else unopt(self._window_size)), x, y, p, address, length_bytes))
+
+
+@contract("rig/machine_control/machine_controller.py::MachineController.write")
+class MCWrite:
+    properties = ("C07",)
+    params = dict(self=MC7, address=TInt(0, 2 ** 32 - 1), data=TInt(), x=TInt(0, 255), y=TInt(0, 255), p=TInt(0, 17), g_conn=CONN7)
+    externals = {"MachineController._get_connection": _get_conn7, "Conn.write": _conn_write7}
+    options = {"decorators": {"use_contextual_arguments": "identity"}}
+    assumptions = MCRead.assumptions
+
+    def native(x):
+        raise __import__("pyvc.replay", fromlist=["OutsideHarness"]).OutsideHarness()
+
+    def requires(self):
+        return self._scp_data_length is not None        # (else the property asks the machine first: C14)
+
+    def ensures_exactly_these_bytes_go_to_this_address_of_this_core(self, address, data, x, y, p, g_conn, _trace):
+        return (len(_trace) == 2 and _trace[0] == ("connection_for", x, y)
+                and _trace[1] == ("write", g_conn.__id__, unopt(self._scp_data_length), (1 if self._window_size is None else unopt(self._window_size)), x, y, p, address, data))
+
+
+def _mc_write7(E, obj, args, kwargs, st, node):
+    from pyvc.values import NONE as _N
+    s = st.copy()
+    s.trace = _ListV7(s.trace.items + (("write",) + tuple(args),))
+    return [(s, _N, None)]
+
+
+def _mc_send_scp7(E, obj, args, kwargs, st, node):
+    from pyvc.values import NONE as _N
+    s = st.copy()
+    s.trace = _ListV7(s.trace.items + (("scp",) + tuple(args),))
+    return [(s, _N, None)]
+
+
+FILL_CMD = 5        # SCP command "fill" (sark.h: CMD_FILL 5), not read from rig.consts
+
+
+@contract("rig/machine_control/machine_controller.py::MachineController.fill")
+class MCFill:
+    """a fill that is not word-aligned at both ends is a write of `size` copies of the byte - the whole range, nothing but the
+    range; an aligned one is a single fill command for exactly (address, word, size)"""
+    properties = ("C07",)
+    params = dict(self=_TRec7("MachineController"), address=TInt(0, 2 ** 32 - 1), data=TInt(0, 255), size=TInt(0, 4096),
+                  x=TInt(0, 255), y=TInt(0, 255), p=TInt(0, 17))
+    externals = {"MachineController.write": _mc_write7, "MachineController._send_scp": _mc_send_scp7}
+    options = {"decorators": {"use_contextual_arguments": "identity"}, "int_class": "rig/machine_control/consts.py::SCPCommands"}
+    assumptions = ["write and _send_scp are recorded here (their own contracts: MCWrite, C18 MCSendScp)"]
+
+    def native(x):
+        raise __import__("pyvc.replay", fromlist=["OutsideHarness"]).OutsideHarness()
+
+    def ensures_unaligned_fill_writes_size_copies_of_the_byte(address, data, size, x, y, p, _trace):
+        d = _trace[0][2]
+        return implies(size % 4 != 0 or address % 4 != 0,
+                       len(_trace) == 1 and _trace[0][0] == "write" and _trace[0][1] == address
+                       and _trace[0][3] == x and _trace[0][4] == y and _trace[0][5] == p
+                       and seq_len(d) == size and forall_range(0, size, lambda i: select(d, i) == data))
+
+    def ensures_aligned_fill_is_one_fill_command(address, data, size, x, y, p, _trace):
+        return implies(size % 4 == 0 and address % 4 == 0,
+                       len(_trace) == 1 and _trace[0] == ("scp", x, y, p, FILL_CMD, address, data, size))
+
+
+# ---- write_vcpu_struct_field for the scalar field kinds (one contract per pack format) ---------------------------------
+from pyvc.values import TConst as _TConst7   # noqa: E402
+
+
+def _mk_field_lookup(fmt):
+    def handler(E, obj, args, kwargs, st, node):
+        """_get_vcpu_field_and_address(name, x, y, p) (its own contract: GetVcpuFieldAndAddress): recorded; gives a scalar
+        field of length 1, the ghost address g_addr and this variant's pack format"""
+        s = st.copy()
+        s.trace = _ListV7(s.trace.items + (("field_of",) + tuple(args),))
+        return [(s, (st.env["g_field"], st.env["g_addr"], fmt), None)]
+    return handler
+
+
+
+@contract("rig/machine_control/machine_controller.py::MachineController.write_vcpu_struct_field", variant="byte")
+class WriteVcpuField_byte:
+    """a scalar per-core field of 1 byte(s) (pack format b'<B'): exactly its little-endian bytes go to the field's address on
+    the field's chip, through the monitor"""
+    properties = ("C07",)
+    params = dict(self=_TRec7("MachineController"), field_name=TInt(), value=TInt(0, 256 ** 1 - 1), x=TInt(0, 255), y=TInt(0, 255), p=TInt(0, 17),
+                  g_field=_TRec7("StructField", length=_TConst7(1)), g_addr=TInt(0, 2 ** 32 - 1))
+    externals = {"MachineController._get_vcpu_field_and_address": _mk_field_lookup(b'<B'), "MachineController.write": _mc_write7}
+    options = {"decorators": {"use_contextual_arguments": "identity"}}
+    assumptions = ["_get_vcpu_field_and_address is external here (own contract); write is recorded (own contract MCWrite); field names are opaque identities"]
+
+    def native(x):
+        raise __import__("pyvc.replay", fromlist=["OutsideHarness"]).OutsideHarness()
+
+    def ensures_exactly_the_fields_bytes_are_written_at_the_fields_address(field_name, value, x, y, p, g_addr, _trace):
+        d = _trace[1][2]
+        return (len(_trace) == 2 and _trace[0] == ("field_of", field_name, x, y, p)
+                and _trace[1][0] == "write" and _trace[1][1] == g_addr and _trace[1][3] == x and _trace[1][4] == y
+                and len(_trace[1]) == 5                                  # (through the monitor: no core argument)
+                and seq_len(d) == 1 and all(select(d, i) == (value // (256 ** i)) % 256 for i in range(1)))
+
+
+@contract("rig/machine_control/machine_controller.py::MachineController.write_vcpu_struct_field", variant="halfword")
+class WriteVcpuField_halfword:
+    """a scalar per-core field of 2 byte(s) (pack format b'<H'): exactly its little-endian bytes go to the field's address on
+    the field's chip, through the monitor"""
+    properties = ("C07",)
+    params = dict(self=_TRec7("MachineController"), field_name=TInt(), value=TInt(0, 256 ** 2 - 1), x=TInt(0, 255), y=TInt(0, 255), p=TInt(0, 17),
+                  g_field=_TRec7("StructField", length=_TConst7(1)), g_addr=TInt(0, 2 ** 32 - 1))
+    externals = {"MachineController._get_vcpu_field_and_address": _mk_field_lookup(b'<H'), "MachineController.write": _mc_write7}
+    options = {"decorators": {"use_contextual_arguments": "identity"}}
+    assumptions = ["_get_vcpu_field_and_address is external here (own contract); write is recorded (own contract MCWrite); field names are opaque identities"]
+
+    def native(x):
+        raise __import__("pyvc.replay", fromlist=["OutsideHarness"]).OutsideHarness()
+
+    def ensures_exactly_the_fields_bytes_are_written_at_the_fields_address(field_name, value, x, y, p, g_addr, _trace):
+        d = _trace[1][2]
+        return (len(_trace) == 2 and _trace[0] == ("field_of", field_name, x, y, p)
+                and _trace[1][0] == "write" and _trace[1][1] == g_addr and _trace[1][3] == x and _trace[1][4] == y
+                and len(_trace[1]) == 5                                  # (through the monitor: no core argument)
+                and seq_len(d) == 2 and all(select(d, i) == (value // (256 ** i)) % 256 for i in range(2)))
+
+
+@contract("rig/machine_control/machine_controller.py::MachineController.write_vcpu_struct_field", variant="word")
+class WriteVcpuField_word:
+    """a scalar per-core field of 4 byte(s) (pack format b'<I'): exactly its little-endian bytes go to the field's address on
+    the field's chip, through the monitor"""
+    properties = ("C07",)
+    params = dict(self=_TRec7("MachineController"), field_name=TInt(), value=TInt(0, 256 ** 4 - 1), x=TInt(0, 255), y=TInt(0, 255), p=TInt(0, 17),
+                  g_field=_TRec7("StructField", length=_TConst7(1)), g_addr=TInt(0, 2 ** 32 - 1))
+    externals = {"MachineController._get_vcpu_field_and_address": _mk_field_lookup(b'<I'), "MachineController.write": _mc_write7}
+    options = {"decorators": {"use_contextual_arguments": "identity"}}
+    assumptions = ["_get_vcpu_field_and_address is external here (own contract); write is recorded (own contract MCWrite); field names are opaque identities"]
+
+    def native(x):
+        raise __import__("pyvc.replay", fromlist=["OutsideHarness"]).OutsideHarness()
+
+    def ensures_exactly_the_fields_bytes_are_written_at_the_fields_address(field_name, value, x, y, p, g_addr, _trace):
+        d = _trace[1][2]
+        return (len(_trace) == 2 and _trace[0] == ("field_of", field_name, x, y, p)
+                and _trace[1][0] == "write" and _trace[1][1] == g_addr and _trace[1][3] == x and _trace[1][4] == y
+                and len(_trace[1]) == 5                                  # (through the monitor: no core argument)
+                and seq_len(d) == 4 and all(select(d, i) == (value // (256 ** i)) % 256 for i in range(4)))
+
